@@ -75,6 +75,10 @@ pub struct GateInner {
     pub calls_after_close: usize,
     /// global sequence number of each call (same index as `calls`), taken when the call is logged
     pub stamps: Vec<u64>,
+    /// flush gate: while true every `flush` call blocks (until `fopen` or cleanup)
+    pub fclosed: bool,
+    /// number of `flush` calls currently blocked in the flush gate (0 or 1)
+    pub fblocked: usize,
 }
 
 #[derive(Default)]
@@ -101,6 +105,10 @@ impl GateShared {
     fn log(&self, g: &mut GateInner, c: Call) {
         g.calls.push(c);
         g.stamps.push(self.tick());
+    }
+    pub fn set_fclosed(&self, closed: bool) {
+        self.lock().fclosed = closed;
+        self.cv.notify_all();
     }
     pub fn open(&self) {
         self.lock().open = true;
@@ -207,6 +215,14 @@ impl EntryIoStream for GateStream {
         if g.closed {
             g.calls_after_close += 1;
         }
+        // the flush gate: the call is logged when it returns
+        if g.fclosed && !g.open {
+            g.fblocked += 1;
+            while g.fclosed && !g.open {
+                g = self.shared.cv.wait(g).unwrap_or_else(|e| e.into_inner());
+            }
+            g.fblocked -= 1;
+        }
         self.shared.log(&mut g, Call::Flush);
         Ok(())
     }
@@ -296,6 +312,10 @@ pub struct Built {
 }
 
 pub fn build(kind: Kind, cap: usize, interval: Duration, gated: bool) -> Built {
+    build_with(kind, cap, interval, gated, None)
+}
+
+pub fn build_with(kind: Kind, cap: usize, interval: Duration, gated: bool, shutdown_timeout: Option<Duration>) -> Built {
     let gate = Arc::new(GateShared::default());
     let rec = CountRecorder::default();
     let counters = rec.0.clone();
@@ -304,6 +324,10 @@ pub fn build(kind: Kind, cap: usize, interval: Duration, gated: bool) -> Built {
         .flush_interval(interval)
         .thread_name("verif-queue")
         .metrics_recorder_local::<dyn metrics_024::Recorder, _>(rec);
+    let b = match shutdown_timeout {
+        Some(t) => b.shutdown_timeout(t),
+        None => b,
+    };
     let stream = GateStream { shared: gate.clone(), gated };
     let (handle, join) = match kind {
         Kind::Typed => {
